@@ -352,7 +352,11 @@ func runPrefetchE2E(id string, parts []string) string {
 	slowLimit := 600 * time.Millisecond
 	replyA := hx.BuildReply(q, false, 0, [4]byte{10, 0, 0, 7}, uint32(ttl))
 	replyB := hx.BuildReply(q, false, 0, [4]byte{10, 0, 0, 8}, uint32(ttl))
-	replyNX := hx.BuildReply(q, false, 3, [4]byte{10, 0, 0, 9}, 30)
+	negRcode := byte(3)
+	if v := f["rc"]; v != "" {
+		negRcode = byte(hx.MustAtoi(v))
+	}
+	replyNX := hx.BuildReply(q, false, negRcode, [4]byte{10, 0, 0, 9}, 30)
 
 	// ---- warm: one query, a miss, stored at some instant in [w0, w1]
 	env.SetBehaviour(key, hx.Behaviour{Kind: "reply", Reply: replyA})
